@@ -84,7 +84,28 @@ func (quietPayloader) Payload(mtu uint16, payload []byte) [][]byte {
 	return (&codecs.G711Payloader{}).Payload(mtu, payload)
 }
 
-var c06PayloaderNames = []string{"g711", "g722", "opus", "h264", "h265", "vp8", "vp9-flex", "vp9-nonflex", "av1", "fill-budget", "sometimes-silent"}
+// oddPayloader returns legal but unusual shapes: a nil fragment or an empty fragment among the fragments.
+type oddPayloader struct{}
+
+func (oddPayloader) Payload(mtu uint16, payload []byte) [][]byte {
+	out := (&codecs.G711Payloader{}).Payload(mtu, payload)
+	if len(payload) == 0 {
+		return out
+	}
+	switch payload[0] % 4 {
+	case 0:
+		out = append(out, nil)
+	case 1:
+		out = append([][]byte{{}}, out...)
+	case 2:
+		if len(out) > 1 {
+			out[len(out)/2] = []byte{}
+		}
+	}
+	return out
+}
+
+var c06PayloaderNames = []string{"g711", "g722", "opus", "h264", "h265", "vp8", "vp9-flex", "vp9-nonflex", "av1", "fill-budget", "sometimes-silent", "odd-shapes"}
 
 func c06Payloader(k int) rtp.Payloader {
 	switch k {
@@ -108,8 +129,10 @@ func c06Payloader(k int) rtp.Payloader {
 		return &codecs.AV1Payloader{}
 	case 9:
 		return fillPayloader{}
+	case 10:
+		return quietPayloader{}
 	}
-	return quietPayloader{}
+	return oddPayloader{}
 }
 
 // c06Input builds an input the payloader can do something with.
